@@ -54,8 +54,34 @@ func genPropEscape(t *rapid.T) string {
 	return esc
 }
 
+// fragments of group constructs cut at every rune: the parser looks ahead a fixed number of runes
+var truncated = []string{"(", "(?", "(?(", "(?(?", "(?(?<", "(?(?<=", "(?(?=", "(?(?!", "(?(?<!", "(?(?<n", "(?(?<n>", "(?(n", "(?(1", "(?<", "(?<=", "(?<!", "(?<n", "(?<n-", "(?<n-m", "(?<-", "(?'", "(?'n", "(?P", "(?P<", "(?P<n", "(?P=", "(?P=n", "(?i", "(?i-", "(?i-m", "(?i:", "(?#", "(?>", "(?:", "(?=", "(?!", "\\", "\\k", "\\k<", "\\k<n", "\\k'", "\\p", "\\p{", "\\p{L", "\\P", "\\x", "\\x{", "\\x{1", "\\u", "\\u0", "\\c", "\\0", "[", "[^", "[a", "[a-", "[a-z-[", "[[:", "[[:alpha", "[[:alpha:", "[\\", "[\\p{", "a{", "a{1", "a{1,", "a{1,2", "$", "${", "${n"}
+
 func genPattern(t *rapid.T) string {
-	switch rapid.IntRange(0, 8).Draw(t, "patsrc") {
+	switch rapid.IntRange(0, 10).Draw(t, "patsrc") {
+	case 9:
+		// a well-formed prefix followed by a construct cut short
+		pre := ""
+		if rapid.Bool().Draw(t, "truncpre") {
+			pre = rapid.SampledFrom([]string{"a", "(x)", "(?<n>x)", "x|", "a*", "[a-z]", "(?:", "(", "\\b"}).Draw(t, "truncprefix")
+		}
+		return pre + rapid.SampledFrom(truncated).Draw(t, "truncated")
+	case 10:
+		// every prefix of a structured or corpus pattern is a pattern too
+		var p string
+		if rapid.Bool().Draw(t, "cutcorpus") {
+			p = corpus.Patterns[rapid.IntRange(0, len(corpus.Patterns)-1).Draw(t, "corpus")].P
+		} else {
+			cfg := gen.Cfg{Depth: 3, Full: true, Inline: "imsnx"}
+			root := gen.Pattern(t, cfg)
+			gen.Resolve(t, root, ast.Opts{}, false, cfg)
+			p = ast.Print(root, ast.PrintOpts{})
+		}
+		r := []rune(p)
+		if len(r) == 0 {
+			return p
+		}
+		return string(r[:rapid.IntRange(0, len(r)).Draw(t, "cutat")])
 	case 8:
 		s := genPropEscape(t)
 		if rapid.Bool().Draw(t, "propmore") {
